@@ -28,7 +28,13 @@ def fn_list():
     return [l.split() for l in out.stdout.splitlines() if l.strip()]
 
 
+SPECIAL = os.path.join(ROOT, "build", "seq", "special")
+SPECIAL_SRC = [os.path.join(ROOT, "engine", "seq", "special.c")]
+SPECIAL_PROPS = {"C01", "C02", "C03", "C04", "C05", "C08"}
+
+
 def build_harness():
+    common.cc(SPECIAL, SPECIAL_SRC, ["-O1", "-g", "-w", "-ldl"])
     common.cc(CAT, SRC[:3], ["-O1", "-g", "-Wall", "-Wno-unused-function", "-pthread"], deps=SRC[3:])
     # -ldl must follow the sources for old linkers; gcc >= 2.34 has dlopen in libc anyway
     return CAT
@@ -54,6 +60,11 @@ def run(pid, tier, deadline_s):
                     tasks.append((name, v, loc, sh, nsh))
     results = []
     timed_out = []
+    if pid in SPECIAL_PROPS:
+        for v in VARIANTS[pid]:
+            for loc in ("C", "C.UTF-8"):
+                for grp in ("printf", "wprintf", "unicode", "os"):
+                    tasks.append(("special:" + grp, v, loc, 0, 1))
 
     def one(t):
         name, v, loc, sh, nsh = t
@@ -63,8 +74,11 @@ def run(pid, tier, deadline_s):
             return t, None
         env = dict(os.environ, CAT_LIB=libs[v])
         try:
-            r = subprocess.run([CAT, "run", pid, tier, v, loc, name, str(sh), str(nsh)], capture_output=True,
-                               text=True, env=env, timeout=left)
+            if name.startswith("special:"):
+                r = subprocess.run([SPECIAL, pid, v, loc, name[8:]], capture_output=True, text=True, env=env, timeout=left)
+            else:
+                r = subprocess.run([CAT, "run", pid, tier, v, loc, name, str(sh), str(nsh)], capture_output=True,
+                                   text=True, env=env, timeout=left)
         except subprocess.TimeoutExpired:
             timed_out.append(t)
             return t, None
@@ -88,11 +102,14 @@ def run(pid, tier, deadline_s):
                 continue
             j = json.loads(ln)
             if j["t"] == "viol":
-                sig = j["sig"] + ("" if v == "prod" else "|" + v)
+                if name.startswith("special:"):
+                    sig = j["sig"]; j["case"] = "special " + j["case"]
+                else:
+                    sig = j["sig"] + ("" if v == "prod" else "|" + v)
                 e = viol.setdefault(sig, [0, j["case"], v, loc])
                 e[0] += j["n"]
             elif j["t"] == "stat":
-                evals += j["evaluations"]; nontriv += j["nontrivial"]; outcomes = max(outcomes, j["outcome_classes"])
+                evals += j["evaluations"]; nontriv += j["nontrivial"]; outcomes = max(outcomes, j.get("outcome_classes", 0))
                 pf = per_fn.setdefault(name, [0, 0]); pf[0] += j["evaluations"]; pf[1] += j["nontrivial"]
             elif j["t"] == "sample" and len(samples) < 16:
                 samples.append(j["case"])
@@ -128,8 +145,11 @@ def replay_kv(kv, quiet=False):
     v = kv.get("variant", "prod")
     lib = vbuild.build(v)
     env = dict(os.environ, CAT_LIB=lib)
-    r = subprocess.run([CAT, "replay", kv["property"], v, kv.get("locale", "C"), kv["case"]], capture_output=True,
-                       text=True, env=env)
+    if kv["case"].startswith("special "):
+        r = subprocess.run([SPECIAL, "replay", kv["property"], v, kv.get("locale", "C")] + kv["case"].split()[1:], capture_output=True, text=True, env=env)
+    else:
+        r = subprocess.run([CAT, "replay", kv["property"], v, kv.get("locale", "C"), kv["case"]], capture_output=True,
+                           text=True, env=env)
     if not quiet:
         sys.stdout.write(r.stdout)
         sys.stderr.write(r.stderr)
